@@ -128,6 +128,8 @@ func teval(ns []*tnode, d *tdata, cx *tctx, sb *strings.Builder) {
 					if b, ok := m[n.text].(bool); ok {
 						val = b
 					}
+				} else if cx.outer == nil {
+					val = d.conds[n.text] // a plain item has no fields: the condition is the data's own
 				}
 			} else {
 				val = d.conds[n.text]
@@ -303,6 +305,21 @@ func (g *tgen) nodes(ctx string, depth, budget int, item map[string]interface{})
 			}
 			out = append(out, &tnode{kind: []string{"index", "first", "last", "index"}[r.Intn(4)]})
 		case k < 7: // conditional
+			if ctx == "scalar" && depth == 1 && g.feat["if"] && g.feat["loop-if"] {
+				// a conditional inside a loop over plain items: the items have no fields, the condition is the data's own
+				g.used["if"], g.used["loop-if"] = true, true
+				nd := &tnode{kind: "if", text: fmt.Sprintf("c%d", r.Intn(4))}
+				if _, ok := g.d.conds[nd.text]; !ok {
+					g.d.conds[nd.text] = r.Chance(2, 3)
+				}
+				nd.a = g.flat(ctx, depth, item)
+				if g.on("else", 1, 2) {
+					nd.hasElse = true
+					nd.b = g.flat(ctx, depth, item)
+				}
+				out = append(out, nd)
+				break
+			}
 			if ctx == "scalar" || depth > 2 {
 				break
 			}
@@ -438,6 +455,8 @@ func (g *tgen) flat(ctx string, depth int, item map[string]interface{}) []*tnode
 				name := fmt.Sprintf("f%d_%d", depth, r.Intn(4))
 				item[name] = true
 				out = append(out, &tnode{kind: "var", text: name})
+			case "scalar":
+				out = append(out, &tnode{kind: []string{"this", "this", "index"}[r.Intn(3)]})
 			}
 		}
 	}
@@ -917,6 +936,9 @@ func c16Describe(cs *c16Case) []string {
 					}
 				} else {
 					set["if-in-each"] = true
+					if !inMap {
+						set["if-in-each-over-plain-items"] = true
+					}
 				}
 				if n.hasElse {
 					set["else"] = true
